@@ -56,6 +56,13 @@ func showCli(f []string) string {
 			stdin = []byte(script[n:])
 			args = append(args, fp, "-")
 		}
+	case "filedir":
+		// the script in a file, then an operand that opens but cannot be read (a directory)
+		fp := filepath.Join(dir, "first.pql")
+		os.WriteFile(fp, []byte(script), 0o644)
+		dp := filepath.Join(dir, "sub")
+		os.Mkdir(dp, 0o755)
+		args = append(args, fp, dp)
 	case "files":
 		// cut the script into three files at arbitrary byte positions
 		n := len(script)
